@@ -128,7 +128,10 @@ def c09_graph(split, ta, tb, tm, tl):
             while f is not None:
                 depth += 1
                 f = f.f_back
-        sys.setrecursionlimit(depth + 160)
+        # the tight limit only saves time under the tracer; natively (replay) a generous one is used, so that a refactoring
+        # which needs more frames per level can at worst produce a non-reproducing candidate, never a VIOLATION
+        from engine.symlib import is_tracing
+        sys.setrecursionlimit(depth + (160 if is_tracing() else 600))
         b = Builder()
         b.add_source(doc1, raw_yaml=True, filename='f1.yaml')
         b.add_source(doc2, raw_yaml=True, filename='f2.yaml')
